@@ -683,6 +683,9 @@ def _handle_call(node: ast.Call, ctx: Context) -> sympy.Expr | None:
         - object.call
         - Class.call
     """
+    if node.keywords:
+        msg = "Keyword arguments are not supported"
+        raise NotImplementedError(msg)
     model_args: list[sympy.Expr] = []
     for i in node.args:
         if (expr := _handle_expr(i, ctx)) is None:
